@@ -51,6 +51,9 @@ fn specs() -> Vec<Spec> {
         // outsiders: same shapes, different material
         Spec { name: "outsider-v4", v6: false, primary: Ed25519, sub: X25519, locked: false, cheap: true },
         Spec { name: "outsider-v6", v6: true, primary: Ed25519, sub: X25519, locked: false, cheap: true },
+        // certificates that carry user attributes (an image and an unknown subpacket type)
+        Spec { name: "attr-v4", v6: false, primary: Ed25519, sub: X25519, locked: false, cheap: true },
+        Spec { name: "attr-v6", v6: true, primary: Ed25519, sub: X25519, locked: false, cheap: true },
         Spec { name: "outsider-p256", v6: false, primary: ECDSA(ECCCurve::P256), sub: ECDH(ECCCurve::P256), locked: false, cheap: true },
     ]
 }
@@ -97,6 +100,12 @@ fn gen(spec: &Spec) -> PoolKey {
         .created_at(Timestamp::from_secs(1_600_000_000))
         .primary_user_id(format!("{} <{}@sim.example>", spec.name, spec.name))
         .passphrase(pw.clone())
+        .user_attributes(if spec.name.starts_with("attr") {
+            let img: Vec<u8> = (0..200u32).map(|i| (i * 7 + 1) as u8).collect();
+            vec![pgp::packet::UserAttribute::new_image(img.into()).expect("image attribute")]
+        } else {
+            vec![]
+        })
         .s2k(s2k_primary)
         .subkey(
             SubkeyParamsBuilder::default()
@@ -137,7 +146,7 @@ pub fn get(name: &str) -> &'static PoolKey {
 pub fn signer_names(cheap_only: bool) -> Vec<&'static str> {
     pool()
         .iter()
-        .filter(|k| !k.name.starts_with("outsider") && (!cheap_only || k.cheap))
+        .filter(|k| !k.name.starts_with("outsider") && !k.name.starts_with("attr") && (!cheap_only || k.cheap))
         .map(|k| k.name)
         .collect()
 }
